@@ -685,3 +685,9 @@ mutant('C08', 'regress-98fb38b Velocities read from a consumed stream', LD, "   
 mutant('C08', 'regress-98fb38b dump table read from a consumed stream', LDD, "    if isinstance(data, io.IOBase):\n        data.seek(0)\n", "", 'STREAMS')
 benign('C08', 'stream recognised by its seek method', LDD, "    if isinstance(data, io.IOBase):\n        data.seek(0)\n", "    if hasattr(data, 'seek'):\n        data.seek(0)\n")
 benign('C08', 'velocities: rewind attempted, a name has nothing to rewind', LD, "        prop_info = velocities_prop_info(atom_style, units)\n" + _RW8, "        prop_info = velocities_prop_info(atom_style, units)\n        try:\n            data.seek(0)\n        except AttributeError:\n            pass\n")
+
+# regressions of the fix: commit 5052613 (the dump-file writer leaves the conversion table it returns as resolved)
+DDF = 'atomman/dump/atom_dump/dump.py'
+mutant('C08', 'regress-5052613 scaled unit erased in the returned table', DDF, "            scale.append(prop['prop_name'])\n", "            scale.append(prop['prop_name'])\n            prop['unit'] = None\n", 'TABLE-READ')
+mutant('C07', 'regress-5052613 scaled unit erased in the returned table', DDF, "            scale.append(prop['prop_name'])\n", "            scale.append(prop['prop_name'])\n            prop['unit'] = None\n", 'TABLE')
+benign('C08', 'scaled columns collected first, conversion skips them by name', DDF, "            if prop['unit'] is not None and prop['unit'] != 'scaled':", "            if prop['unit'] is not None and pname not in scale:")
